@@ -1,3 +1,56 @@
 // harnesses for crate::cuesheet (child module: sees private items)
 #![allow(dead_code, unused_imports)]
 use super::*;
+use crate::verif_k::{vk_assert, vk_undecided};
+
+// ---- CDDAOffset::from_str (C12: cue sheet offset arithmetic) ----
+// contract: for every text MM:SS:FF made of decimal digits (shape -- the number of digits per field -- concrete per
+// instance, digits symbolic): never panics; Ok iff SS < 60, FF < 75 and the sample offset fits 64 bits, and then the
+// offset is ((MM*60 + SS)*75 + FF) * 588
+macro_rules! k_cdda_offset_from_str {
+    ($name:ident, $mm_digits:expr, $unw:expr) => {
+        #[kani::proof]
+        #[kani::unwind($unw)]
+        pub(crate) fn $name() {
+            const M: usize = $mm_digits;
+            let mut b = [0u8; M + 6];
+            let mut mm: u128 = 0;
+            let mut i = 0;
+            while i < M {
+                let d: u8 = kani::any();
+                kani::assume(d <= 9);
+                b[i] = b'0' + d;
+                mm = mm * 10 + d as u128;
+                i += 1;
+            }
+            let (s1, s0, f1, f0): (u8, u8, u8, u8) = kani::any();
+            kani::assume(s1 <= 9 && s0 <= 9 && f1 <= 9 && f0 <= 9);
+            b[M] = b':';
+            b[M + 1] = b'0' + s1;
+            b[M + 2] = b'0' + s0;
+            b[M + 3] = b':';
+            b[M + 4] = b'0' + f1;
+            b[M + 5] = b'0' + f0;
+            let ss = (s1 * 10 + s0) as u128;
+            let ff = (f1 * 10 + f0) as u128;
+            let s = match std::str::from_utf8(&b) {
+                Ok(s) => s,
+                Err(_) => { vk_undecided!(false, "ASCII digits are UTF-8"); return; }
+            };
+            let r = CDDAOffset::from_str(s);
+            let want = ((mm * 60 + ss) * 75 + ff) * 588;
+            let valid = ss < 60 && ff < 75 && mm <= u64::MAX as u128 && want <= u64::MAX as u128;
+            match r {
+                Ok(o) => vk_assert!(valid && o.offset as u128 == want, "CDDAOffset::from_str: MM:SS:FF is ((MM*60+SS)*75+FF)*588 samples, accepted only when SS < 60, FF < 75 and the result fits 64 bits"),
+                Err(()) => vk_assert!(!valid, "CDDAOffset::from_str rejected a well-formed MM:SS:FF"),
+            }
+        }
+    };
+}
+k_cdda_offset_from_str!(k_cdda_offset_from_str_m2, 2, 10);
+// measured: 14 and 20 symbolic minute digits (where the arithmetic can overflow) time out; the overflow region is
+// covered by concrete extremes instead
+
+// (built and removed: a list of concrete extreme texts such as "4099276460824345:00:00" -- even one concrete 22-character text
+// does not finish in 10 min: std's str searching over a literal is not constant-folded by CBMC.  The overflow of
+// mm * 75 * 60 for minutes >= 4.1e15 is therefore NOT decided; see DESIGN.md section 6, unrepaired defects.)
